@@ -25,6 +25,7 @@ import NeoFS.Driver.IRContainer
 import NeoFS.Driver.IRNetmap
 import NeoFS.Driver.FSTree
 import NeoFS.Driver.IR
+import NeoFS.Driver.Engine
 open NeoFS NeoFS.Driver
 
 /-- State of all stateful models; pure models need none. -/
@@ -39,6 +40,7 @@ structure DState where
   wcr : NeoFS.WCFlush.St := {}
   shardst : NeoFS.ShardSteps.St := {}
   fstree : NeoFS.Driver.FSt := {}
+  eng : NeoFS.Engine.Eng := {}
   irn : NeoFS.IRNetmap.St := ⟨0, false, 0⟩
 
 def stepLine (s : DState) (line : String) : DState × String :=
@@ -59,6 +61,7 @@ def stepLine (s : DState) (line : String) : DState × String :=
   | "irn" => let (n, out) := irnStep s.irn o; ({ s with irn := n }, out)
   | "fstree" => let (f, out) := fstreeStep s.fstree o; ({ s with fstree := f }, out)
   | "ir" => (s, irStep o)
+  | "eng" => let (g, out) := engStep s.eng o; ({ s with eng := g }, out)
   | "put" => (s, putStep o)
   | "validate" => (s, validateStep o)
   | "wcread" => let (w, out) := wcreadStep s.wcr o; ({ s with wcr := w }, out)
